@@ -26,8 +26,9 @@ TUPLES = [
     # the refinement loop of convergence_order: explicit level cap above what the coarser grid allows, F-cycle, divideBy2 growing
     "extr:1;fmg:0;strat:0;maxit:150;div2:0;maxlev:6;cycle:2",     # t11
     "extr:1;fmg:0;strat:0;maxit:150;div2:1;maxlev:6;cycle:2",     # t12
+    "extr:1;fmg:1;strat:1;maxit:150;div2:0;gridfile:6;cg:0",      # t13 a user's non-uniform grid loaded from files, geometry not cached
 ]
-ALPHABET = {"quick": [0, 1, 2, 3, 4, 5, 11, 12], "thorough": [0, 1, 2, 3, 4, 5, 6, 7, 11, 12]}
+ALPHABET = {"quick": [0, 1, 2, 3, 4, 5, 11, 12, 13], "thorough": [0, 1, 2, 3, 4, 5, 6, 7, 11, 12, 13]}
 NOSETUP = {0: [8, 9], 8: [0, 9], 9: [0, 8], 1: [10], 10: [1]}   # tuples that differ in solve-time options only
 
 
